@@ -23,6 +23,11 @@ struct Tally {
     learning_commits_before: u64,
     ac_affected_lists: u64,
     second_updates: u64,
+    intermediate_updates: u64,
+    reused_config_object: u64,
+    back_to_first_layout: u64,
+    fixed_to_other_fixed: u64,
+    single_flip: [u64; 11],
 }
 fn flush(t: &Tally, out: &mut Out) {
     out.count("evaluations", t.calls);
@@ -36,27 +41,69 @@ fn flush(t: &Tally, out: &mut Out) {
     out.count("learning_commits_before_update", t.learning_commits_before);
     out.count("continuation_lists_whose_first_candidate_comes_from_the_user_list", t.ac_affected_lists);
     out.count("second_updates_compared", t.second_updates);
-}
-
-// the first three contain number-pad keys; the last four compose Bengali emoji names on the fixed layouts (হাসি, লল, কুল, "হাসি")
-/// characters that stand for number-pad keys in the word list
-fn key_of(c: char) -> u16 {
-    let kp = |n: &str| keys().iter().find(|k| k.name == n).unwrap().code;
-    match c {
-        '¹' => kp("VC_KP_1"),
-        '²' => kp("VC_KP_2"),
-        '÷' => kp("VC_KP_DIVIDE"),
-        c => kc(c),
+    out.count("intermediate_updates", t.intermediate_updates);
+    out.count("triples.configuration_object_reused_through_setters", t.reused_config_object);
+    out.count("triples.back_to_the_first_layout_after_another", t.back_to_first_layout);
+    out.count("triples.fixed_layout_to_other_fixed_layout", t.fixed_to_other_fixed);
+    for (i, n) in t.single_flip.iter().enumerate() {
+        out.count(&format!("single_option_flip.{}", OPT_NAMES[i]), *n);
     }
 }
-const WORDS: [&str; 23] = ["k¹", "¹²÷", "a÷¹", "amar", "as", "kotha", "ami", "onno", "amare", "asgulo", "kothay", "tumi", "(amar)", "\"as\"", "kk", "amargulo", "onnoder", "a", "bd", "hasi", "ll", "kul", "\"hasi\""];
-const ACS: [&str; 6] = [
+
+/// A "word" is a string: ASCII characters are main-block keys, ¹ ² ÷ number-pad keys, and a private-use character
+/// U+E000 + modifier * 256 + index into the key table stands for that key with that modifier (probe words built from
+/// the layout files use these, e.g. the AltGr keys of the synthetic layout).
+fn enc(code: u16, m: u8) -> char {
+    let i = keys().iter().position(|k| k.code == code).expect("key in table");
+    char::from_u32(0xE000 + (m as u32) * 256 + i as u32).unwrap()
+}
+fn key_of(c: char) -> (u16, u8) {
+    let kp = |n: &str| keys().iter().find(|k| k.name == n).unwrap().code;
+    match c {
+        '¹' => (kp("VC_KP_1"), 0),
+        '²' => (kp("VC_KP_2"), 0),
+        '÷' => (kp("VC_KP_DIVIDE"), 0),
+        c if (0xE000..0xE400).contains(&(c as u32)) => {
+            let v = c as u32 - 0xE000;
+            (keys()[(v % 256) as usize].code, (v / 256) as u8)
+        }
+        c => (kc(c), 0),
+    }
+}
+/// Probe words for a fixed layout: one per composition helper, typed through the keys the layout file assigns
+/// (so that every option has a continuation whose outcome depends on it).
+fn probes(lay: Lay) -> Vec<String> {
+    let Ok(o) = crate::oracle::layout::LayoutOracle::load(lay) else { return vec![] };
+    let w = |vals: &[&str]| -> Option<String> { vals.iter().map(|v| o.key_for_value(v).map(|(k, m)| enc(k, m))).collect() };
+    [
+        w(&["া", "ক"]),                    // automatic vowel
+        w(&["ক", "ঁ", "া"]),               // automatic chandrabindu position
+        w(&["ক", "ু", "ত", "ৃ"]),          // traditional joining
+        w(&["ক", "ত", "া", "র্"]),         // old-style reph (synthetic layout only)
+        w(&["ি", "ক", "ে", "ত", "া"]),     // old vowel-sign order
+        w(&["ক", "্", "ি"]),               // hasanta + sign
+        w(&["\"", "ক", "\""]),             // smart quotes
+        w(&["ক", "্র", "র", "্য"]),        // fola keys (synthetic layout only)
+    ]
+    .into_iter()
+    .flatten()
+    .collect()
+}
+// the first three contain number-pad keys; "academy" has an entry in the bundled auto-correct list, "hongkonge" needs the
+// suffix table; the last four compose Bengali emoji names on the fixed layouts (হাসি, লল, কুল, "হাসি")
+const WORDS: [&str; 26] = ["k¹", "¹²÷", "a÷¹", "amar", "as", "kotha", "ami", "onno", "amare", "asgulo", "kothay", "tumi", "(amar)", "\"as\"", "kk", "amargulo", "onnoder", "a", "bd", "academy", "hongkonge", "academyr", "hasi", "ll", "kul", "\"hasi\""];
+const LAYS: [Lay; 4] = [Lay::Phonetic, Lay::Probhat, Lay::Verif, Lay::Twin];
+const ACS: [&str; 9] = [
     r#"{"amar":"tomar","as":"ash"}"#,
     r#"{"amar":"kemon","kotha":"kOtha"}"#,
     r#"{}"#,
     r#"{"ami":"tumi","as":"asha","onno":"Onno","kk":"kOk"}"#,
     r#"{"bd":"bangladesh","amar":"amaR"}"#,
     r#"{"as":"","kotha":"kotha"}"#,
+    // damaged by the edit: to be treated as absent from then on
+    r#"{"amar":"tomar","as":"#,
+    "",
+    r#"["amar","tomar"]"#,
 ];
 
 #[derive(Clone)]
@@ -71,6 +118,10 @@ enum Act {
 
 struct Case {
     a: CfgSpec,
+    /// configurations the context passes through (update_engine while idle, then optionally a word) before the update under test
+    via: Vec<(CfgSpec, Option<String>)>,
+    /// how each update_engine call (the intermediate ones, then the one under test) is given its configuration: see `Sess::update_with`
+    modes: Vec<u8>,
     b: CfgSpec,
     initial_ac: Option<usize>,
     before: Vec<Act>,
@@ -85,7 +136,9 @@ fn act_json(a: &Act) -> Value {
     }
 }
 fn case_json(c: &Case) -> Value {
-    json!({"cfg_before": c.a.to_json(), "cfg_after": c.b.to_json(), "initial_user_autocorrect": c.initial_ac.map(|i| ACS[i]),
+    json!({"cfg_before": c.a.to_json(), "cfg_after": c.b.to_json(),
+           "intermediate_updates": c.via.iter().map(|(s, w)| json!({"cfg": s.to_json(), "then_type": w})).collect::<Vec<_>>(), "config_delivery": c.modes,
+           "initial_user_autocorrect": c.initial_ac.map(|i| ACS[i]),
            "initial_store": STORE, "before_update": c.before.iter().map(act_json).collect::<Vec<_>>(),
            "after_update": c.after.iter().map(|(w, e)| act_json(&Act::Word(w.clone(), *e))).collect::<Vec<_>>()})
 }
@@ -100,28 +153,41 @@ fn random_spec(rng: &mut Rng, lay: Lay) -> CfgSpec {
     CfgSpec::new(lay, opts)
 }
 
-fn gen_case(rng: &mut Rng) -> Case {
-    let la = Lay::ALL[rng.below(3)];
+fn gen_case(rng: &mut Rng, probe: &dyn Fn(Lay) -> Vec<String>) -> Case {
+    let la = LAYS[rng.below(4)];
     let a = random_spec(rng, la);
-    let b = match rng.below(8) {
-        0 | 1 => {
-            // same layout, exactly one option flipped (every option gets its turn)
-            CfgSpec::new(la, a.opts ^ (1 << rng.below(11)))
+    let flip1 = |rng: &mut Rng, s: CfgSpec| CfgSpec::new(s.lay, s.opts ^ (1 << rng.below(11)));
+    // intermediate configurations (a third of the cases): single flips, other layouts
+    let mut via: Vec<(CfgSpec, Option<String>)> = vec![];
+    if rng.chance(1, 3) {
+        let mut cur = a;
+        for _ in 0..rng.range(1, 2) {
+            cur = if rng.chance(1, 2) { flip1(rng, cur) } else { let l = LAYS[rng.below(4)]; random_spec(rng, l) };
+            let w = if rng.chance(1, 2) { Some(WORDS[rng.below(WORDS.len())].to_string()) } else { None };
+            via.push((cur, w));
         }
+    }
+    let last = via.last().map(|v| v.0).unwrap_or(a);
+    let b = match rng.below(8) {
+        // same layout, exactly one option flipped (every option gets its turn)
+        0 | 1 => flip1(rng, last),
         2 => {
             // same layout, 2-3 option flips
-            let mut o = a.opts;
+            let mut o = last.opts;
             for _ in 0..rng.range(2, 3) {
                 o ^= 1 << rng.below(11);
             }
-            CfgSpec::new(la, o)
+            CfgSpec::new(last.lay, o)
         }
-        3 => a, // pure reload
+        // pure reload, or back to the first configuration (layout A -> B -> A, option on -> off -> on)
+        3 => a,
+        4 if !via.is_empty() => CfgSpec::new(a.lay, last.opts),
         _ => {
-            let lb = Lay::ALL[rng.below(3)];
-            random_spec(rng, lb)
+            let l = LAYS[rng.below(4)];
+            random_spec(rng, l)
         }
     };
+    let modes: Vec<u8> = (0..=via.len()).map(|_| rng.below(5) as u8).collect();
     let mut before = vec![];
     let mut typed: Vec<String> = vec![];
     for _ in 0..rng.below(5) {
@@ -144,7 +210,30 @@ fn gen_case(rng: &mut Rng) -> Case {
         let w = if !typed.is_empty() && rng.chance(1, 2) { typed[rng.below(typed.len())].clone() } else { WORDS[rng.below(WORDS.len())].to_string() };
         after.push((w, if rng.chance(1, 4) { Some(rng.below(3)) } else { None }));
     }
-    Case { a, b, initial_ac: if rng.chance(2, 3) { Some(rng.below(ACS.len())) } else { None }, before, after }
+    // probe words of the new layout: all of them when one helper was flipped, two otherwise
+    let pr = probe(b.lay);
+    if !pr.is_empty() {
+        if last.lay == b.lay && (last.opts ^ b.opts).count_ones() == 1 {
+            after.extend(pr.iter().map(|w| (w.clone(), None)));
+        } else {
+            for _ in 0..2 {
+                after.push((pr[rng.below(pr.len())].clone(), None));
+            }
+        }
+    }
+    // one case in eight: the suggestion switch of a phonetic context is flipped right after a word with a learned
+    // (non-first) pre-selection was committed as pre-selected, and the continuation commits its words
+    if rng.chance(1, 8) {
+        let a = CfgSpec::new(Lay::Phonetic, a.opts | O_PSUGG);
+        let b = CfgSpec::new(Lay::Phonetic, a.opts & !O_PSUGG);
+        let w = ["onno", "as"][rng.below(2)].to_string();
+        before.push(Act::Word(w.clone(), Some(0)));
+        let mut after = after;
+        after.insert(0, (w, Some(0)));
+        after.insert(1, (["onno", "as", "ami"][rng.below(3)].to_string(), Some(0)));
+        return Case { a, via: vec![], modes: vec![rng.below(5) as u8], b, initial_ac: if rng.chance(2, 3) { Some(rng.below(ACS.len())) } else { None }, before, after };
+    }
+    Case { a, via, modes, b, initial_ac: if rng.chance(2, 3) { Some(rng.below(ACS.len())) } else { None }, before, after }
 }
 
 fn write_ac(root: &Path, content: &str, mtime: SystemTime) {
@@ -161,7 +250,8 @@ fn type_word(s: &Sess, w: &str, end: Option<usize>, t: &mut Tally) -> Result<(Ve
     let mut hl = 0u8;
     for c in w.chars() {
         t.calls += 1;
-        let sg = s.key(key_of(c), 0, hl)?;
+        let (code, m) = key_of(c);
+        let sg = s.key(code, m, hl)?;
         hl = if sg.is_lonely() { 0 } else { sg.previously_selected_index().min(255) as u8 };
         outv.push(format!("{} ongoing={}", Rs::of(&sg).to_json(), s.ongoing()?));
         last = Some(sg);
@@ -222,9 +312,28 @@ fn run_case(c: &Case, root: &Path, out: &mut Out, t: &mut Tally) {
             }
         }
     }
+    for (i, (spec, w)) in c.via.iter().enumerate() {
+        t.calls += 1;
+        t.intermediate_updates += 1;
+        if let Err(p) = u.update_with(*spec, c.modes[i]) {
+            return fail(out, "intermediate update_engine", &p);
+        }
+        if let Some(w) = w {
+            if let Err(p) = type_word(&u, w, None, t) {
+                return fail(out, "typing between the updates", &p);
+            }
+        }
+    }
     // the update under test (the context is idle: every word was ended)
     t.calls += 1;
-    if let Err(p) = u.update(c.b) {
+    let mode = *c.modes.last().unwrap_or(&0);
+    if mode != 0 {
+        t.reused_config_object += 1;
+    }
+    if c.via.iter().any(|(s, _)| s.lay != c.a.lay) && c.b.lay == c.a.lay {
+        t.back_to_first_layout += 1;
+    }
+    if let Err(p) = u.update_with(c.b, mode) {
         return fail(out, "update_engine", &p);
     }
     let f = match Sess::new(c.b, root) {
@@ -232,13 +341,20 @@ fn run_case(c: &Case, root: &Path, out: &mut Out, t: &mut Tally) {
         Err(p) => return fail(out, "creating the reference context", &p),
     };
     t.triples += 1;
-    if c.a.lay != c.b.lay {
+    let last = c.via.last().map(|v| v.0).unwrap_or(c.a);
+    if last.lay != c.b.lay {
         t.layout_changed += 1;
-        if c.a.lay.is_fixed() != c.b.lay.is_fixed() {
+        if last.lay.is_fixed() != c.b.lay.is_fixed() {
             t.method_changed += 1;
+        }
+        if last.lay.is_fixed() && c.b.lay.is_fixed() {
+            t.fixed_to_other_fixed += 1;
         }
     } else {
         t.option_flips_only += 1;
+        if (last.opts ^ c.b.opts).count_ones() == 1 {
+            t.single_flip[(last.opts ^ c.b.opts).trailing_zeros() as usize] += 1;
+        }
     }
     if edited {
         t.with_ac_edit += 1;
@@ -263,6 +379,8 @@ fn run_case(c: &Case, root: &Path, out: &mut Out, t: &mut Tally) {
                         "word-typed-before-autocorrect-edit"
                     } else if edited {
                         "after-autocorrect-edit"
+                    } else if !c.via.is_empty() {
+                        "after-intermediate-updates"
                     } else if c.a.lay != c.b.lay {
                         "layout-change"
                     } else {
@@ -288,7 +406,7 @@ fn run_case(c: &Case, root: &Path, out: &mut Out, t: &mut Tally) {
     let spec_c = c.b.with(on);
     t.calls += 2;
     let mut f = f;
-    if let Err(p) = u.update(spec_c).and_then(|_| f.update(spec_c)) {
+    if let Err(p) = u.update_with(spec_c, mode).and_then(|_| f.update(spec_c)) {
         return fail(out, "second update_engine", &p);
     }
     t.second_updates += 1;
@@ -321,9 +439,9 @@ impl Prop for C11 {
         "C11"
     }
     fn rule(&self) -> String {
-        "random triples (configuration before, history, configuration after): layouts phonetic / Probhat / synthetic with random options; the new configuration is a single option flip on the same layout (1/4), 2-3 flips (1/8), the same configuration (pure reload, 1/8) or a random configuration on a random layout (1/2); \
-         before the update: 0-4 words typed and finished or committed (learning commits included), 0-2 rewrites of the user auto-correct file (6 documents incl. empty object and an empty-string value) with explicitly increasing mtime, optionally an update_engine with the same configuration and another word; \
-         after the update: 1-6 words, half of them words already typed before the edit, typed in the updated context and in a context newly created with the new configuration over the same user files; every key's rendering, the flag and the commits are compared; then both contexts are re-configured once more (suggestions on) and the same words are typed again and compared. \
+        "random triples (configuration before, history, configuration after): layouts phonetic / Probhat / synthetic / a second file called Probhat.json in another directory with keys exchanged, random options; in a third of the cases the context first passes through 1-2 intermediate configurations (single flips or other layouts, optionally a word typed under each) and then often returns to the first layout or configuration; each update_engine receives either a newly built configuration object or the session's own object changed through its setters (all setters or only the changed ones, in either order); the new configuration is a single option flip on the same layout (1/4), 2-3 flips (1/8), the same configuration (pure reload, 1/8) or a random configuration on a random layout (1/2); \
+         before the update: 0-4 words typed and finished or committed (learning commits included), 0-2 rewrites of the user auto-correct file (9 documents incl. empty object, an empty-string value and three damaged ones) with explicitly increasing mtime, optionally an update_engine with the same configuration and another word; \
+         after the update: 1-6 words (incl. number-pad keys, a word with a bundled auto-correct entry, suffixed words), half of them words already typed before the edit, plus probe words built from the new layout's file for every composition helper (all eight after a single-option flip, two otherwise), typed in the updated context and in a context newly created with the new configuration over the same user files; every key's rendering, the flag and the commits are compared; then both contexts are re-configured once more (suggestions on) and the same words are typed again and compared. \
          distinct_nontrivial = distinct (configuration pair, history shape, continuation words) triples compared."
             .into()
     }
@@ -339,16 +457,18 @@ impl Prop for C11 {
     fn minima(&self, _tier: Tier) -> Vec<(&'static str, u64)> {
         vec![
             ("triples_compared", 1_500), ("triples.layout_changed", 300), ("triples.method_changed", 200), ("triples.same_layout_option_flips", 300), ("triples.autocorrect_edited_before_update", 500),
-            ("continuation_words_already_typed_before_the_edit", 300), ("continuation_lists_whose_first_candidate_comes_from_the_user_list", 150), ("learning_commits_before_update", 100), ("second_updates_compared", 1_000),
+            ("continuation_words_already_typed_before_the_edit", 300), ("continuation_lists_whose_first_candidate_comes_from_the_user_list", 150), ("learning_commits_before_update", 100), ("second_updates_compared", 1_000), ("triples.configuration_object_reused_through_setters", 800), ("triples.back_to_the_first_layout_after_another", 30), ("triples.fixed_layout_to_other_fixed_layout", 200),
+            ("single_option_flip.reph", 10), ("single_option_flip.numpad", 10), ("single_option_flip.sq", 10), ("single_option_flip.ansi", 10), ("single_option_flip.psugg", 10), ("single_option_flip.karorder", 10),
         ]
     }
     fn run_shard(&self, env: &Env, out: &mut Out) {
         let mut t = Tally::default();
         let mut rng = env.rng("c11");
         let root = env.root("c11");
-        let n = env.tier.pick(160, 2400);
+        let n = env.tier.pick(320, 2400);
+        let pr: std::collections::HashMap<Lay, Vec<String>> = LAYS.iter().map(|l| (*l, if l.is_fixed() { probes(*l) } else { vec![] })).collect();
         for _ in 0..n {
-            let c = gen_case(&mut rng);
+            let c = gen_case(&mut rng, &|l| pr[&l].clone());
             out.begin_case(|| case_json(&c));
             run_case(&c, &root, out, &mut t);
         }
@@ -373,7 +493,12 @@ impl Prop for C11 {
             }
         }
         let after: Vec<(String, Option<usize>)> = case.get("after_update").and_then(|b| b.as_array()).map(|a| a.iter().filter_map(parse_word).collect()).unwrap_or_default();
-        let c = Case { a, b, initial_ac: case.get("initial_user_autocorrect").and_then(ac_idx), before, after };
+        let via: Vec<(CfgSpec, Option<String>)> = case.get("intermediate_updates").and_then(|v| v.as_array()).map(|a| {
+            a.iter().filter_map(|x| Some((x.get("cfg").and_then(CfgSpec::from_json)?, x.get("then_type").and_then(|w| w.as_str()).map(|w| w.to_string())))).collect()
+        }).unwrap_or_default();
+        let mut modes: Vec<u8> = case.get("config_delivery").and_then(|v| v.as_array()).map(|a| a.iter().map(|m| m.as_u64().unwrap_or(0) as u8).collect()).unwrap_or_default();
+        modes.resize(via.len() + 1, 0);
+        let c = Case { a, via, modes, b, initial_ac: case.get("initial_user_autocorrect").and_then(ac_idx), before, after };
         let mut t = Tally::default();
         run_case(&c, &env.root("c11"), out, &mut t);
         flush(&t, out);
